@@ -92,6 +92,24 @@ class AxisEval:
             return [a[1] for a in lay[idx]]
         return [("?", norm_text(e)[:40])]
 
+    def _expand_shape_args(self, rest):
+        """x.reshape(y.shape) / x.reshape(*y.shape) / x.view(y.size()): the sizes of y's axes one by one"""
+        out = []
+        for a in rest:
+            inner = a.value if isinstance(a, ast.Starred) else a
+            base = None
+            if isinstance(inner, ast.Attribute) and inner.attr == "shape":
+                base = inner.value
+            elif isinstance(inner, ast.Call) and isinstance(inner.func, ast.Attribute) and inner.func.attr == "size" and not inner.args and not inner.keywords:
+                base = inner.func.value
+            if base is None or not (isinstance(a, ast.Starred) or len(rest) == 1):
+                out.append(a)
+                continue
+            lay = self.ev(base)
+            for i in range(len(lay)):
+                out.append(ast.Subscript(value=ast.Attribute(value=base, attr="shape", ctx=ast.Load()), slice=ast.Constant(value=i), ctx=ast.Load()))
+        return out
+
     # -- regrouping -----------------------------------------------------------------------
     def regroup(self, layout, args, node):
         atoms = [a for g in layout for a in g]
@@ -102,7 +120,7 @@ class AxisEval:
             if s is not WILD and any(x[0] in ("?", "const") for x in s):
                 # an unnamed size: cannot tell which atoms it spans
                 raise Unknown("size `%s` is not a product of named axis sizes" % (s,))
-        what = "`%s` of a tensor laid out as %s" % (norm_text(node)[:70] if len(norm_text(node)) < 70 else "." + norm_text(node.func.attr if isinstance(node.func, ast.Attribute) else node.func) + "(" + ", ".join(norm_text(a)[:30] for a in args) + ")", show(layout))
+        what = "`%s` of a tensor laid out as %s" % (norm_text(node)[:70] if len(norm_text(node)) < 70 else "." + (node.func.attr if isinstance(node.func, ast.Attribute) else norm_text(node.func)) + "(" + ", ".join(norm_text(a)[:30] for a in args) + ")", show(layout))
 
         def take(spec, from_left):
             need = sorted(map(repr, spec))
@@ -236,14 +254,22 @@ class AxisEval:
                     recv, rest = c.args[0], c.args[1:]
                     if len(rest) == 1 and isinstance(rest[0], (ast.Tuple, ast.List)):
                         rest = rest[0].elts
-                    return self._shape_op(name, recv, list(rest), c)
+                    rest = list(rest)
+                    if name != "permute":
+                        rest = self._expand_shape_args(rest)
+                    return self._shape_op(name, recv, rest, c)
                 if name in REDUCTIONS and c.args:
                     return self._reduce(self.ev(c.args[0]), c, c.args[1:])
                 raise Unknown("torch.%s" % name)
+            if name in ("view_as", "reshape_as") and len(c.args) == 1:
+                like = ast.Attribute(value=c.args[0], attr="shape", ctx=ast.Load())
+                return self._shape_op("reshape", f.value, self._expand_shape_args([like]), c)
             if name in ("reshape", "view", "permute"):
                 rest = list(c.args)
                 if len(rest) == 1 and isinstance(rest[0], (ast.Tuple, ast.List)):
                     rest = list(rest[0].elts)
+                if name != "permute":
+                    rest = self._expand_shape_args(rest)
                 return self._shape_op(name, f.value, rest, c)
             if name in ("transpose",) and len(c.args) == 2:
                 lay = list(self.ev(f.value))
